@@ -1,9 +1,19 @@
 #!/bin/bash
-# usage: try_mutant.sh <patch> <Cxx> [tier]  -- apply a seeded change to /repo, run the check, undo it
-P=$1; ID=$2; T=${3:-quick}
-cd /verif
-git -C /repo apply $P || { echo "APPLY-FAILED $P"; exit 2; }
-./check $ID --tier $T > .cache/logs/mut_$ID.log 2>&1; rc=$?
-git -C /repo checkout -- .
-echo "$P on $ID: rc=$rc $(grep -c '^VIOLATION' .cache/logs/mut_$ID.log) violation(s): $(grep '^VIOLATION' .cache/logs/mut_$ID.log | head -2 | tr '\n' ' ' | cut -c1-200)"
-grep "violation:" .cache/logs/mut_$ID.log | head -2 | cut -c1-260
+# usage: try_mutant.sh <patch> <Cxx> [tier] [--inrepo]
+# Applies a seeded change and runs the check.  Default: in a scratch worktree of /repo's HEAD via
+# VERIF_REPO (does not disturb other users of /repo); with --inrepo: git -C /repo apply, run, checkout.
+P=$1; ID=$2; T=${3:-quick}; MODE=$4
+cd /verif; mkdir -p .cache/logs
+if [ "$MODE" = "--inrepo" ]; then
+  git -C /repo apply $P || { echo "APPLY-FAILED $P"; exit 2; }
+  ./check $ID --tier $T > .cache/logs/mut_$ID.log 2>&1; rc=$?
+  git -C /repo checkout -- .
+else
+  WT=/tmp/trial-$ID-$$
+  git -C /repo worktree add --detach $WT HEAD >/dev/null 2>&1
+  git -C $WT apply $P || { echo "APPLY-FAILED $P"; git -C /repo worktree remove --force $WT; exit 2; }
+  VERIF_REPO=$WT ./check $ID --tier $T > .cache/logs/mut_$ID.log 2>&1; rc=$?
+  git -C /repo worktree remove --force $WT
+fi
+echo "$P on $ID: rc=$rc violations=$(grep -c '^VIOLATION' .cache/logs/mut_$ID.log) nofail=$(grep -c 'no-failing-input-found' .cache/logs/mut_$ID.log)"
+grep "violation:" .cache/logs/mut_$ID.log | head -3 | cut -c1-300
